@@ -4,7 +4,7 @@ from .common import *
 RULE = ("keygen with parameter lists of length 0..10; sign / lifetime / try_sign with key lengths 0..64, every value of every parameter byte "
         "(values that denote valid trees of height >= 10 are only exercised through the counter hooks, they would really be generated), wiped and "
         "exhausted keys; keygen / sign with aux buffers of every short length, every level-word byte corrupted, marker-only buffers; "
-        "oracle: catch_unwind, and on error paths callback trace empty and no signature; the aux layout arithmetic (hook) for every top-tree height and buffer lengths up to 2^26")
+        "oracle: catch_unwind, and on error paths callback trace empty and no signature; the aux layout arithmetic (hook) for every top-tree height and buffer lengths up to 2^26; counters at and beyond the end of the lifetime for 1..3-level keys")
 ASSUMPTIONS = ["HssParameter::new(LmotsReserved|LmsReserved, ..) (an API-misuse panic in the parameter constructor itself, not in keygen) is outside the property"]
 
 
@@ -50,6 +50,14 @@ def run(ctx):
             cases.append(Case(sign_line(H, b, b"m"), "sign/" + nm))
             cases.append(Case(lifetime_line(H, b), "lifetime/" + nm))
             cases.append(Case(trysign_line(H, b, b"m"), "trysign/" + nm))
+        # counters at and beyond the end of the lifetime for one-, two- and three-level keys (such blobs come from foreign or damaged key files)
+        for psx in ([(3, 1)], [(3, 5)], [(3, 5), (3, 1)], [(3, 1), (2, 1), (3, 1)]):
+            Nx = 1 << sum(heights_of(psx))
+            for cx in (Nx - 1, Nx, Nx + 1, 2 * Nx - 1, 2 * Nx, 2 ** 32 - 1, 2 ** 32, 2 ** 63, 2 ** 64 - 1):
+                bx = sk_blob(H, psx, seed, cx)
+                cases.append(Case(sign_line(H, bx, b"m", rng.choice(["accept", "reject"])), "sign/counter-beyond/L%d" % len(psx)))
+                cases.append(Case(lifetime_line(H, bx), "lifetime/counter-beyond/L%d" % len(psx)))
+                cases.append(Case(trysign_line(H, bx, b"m"), "trysign/counter-beyond/L%d" % len(psx)))
         # aux buffers
         ps = [(3, 5), (4, 1)]
         skb = sk_blob(H, ps, seed, 0)
